@@ -181,6 +181,61 @@ def classes():
     return _CLS
 
 
+_ABS = {}
+
+
+def abstract_class(name):
+    """one run-time class per name (py4hw.AbstractLogic), shared by every design of the process"""
+    if name not in _ABS:
+        _ABS[name] = P().AbstractLogic(name)
+    return _ABS[name]
+
+
+def _abs_leaf(p, par, n, a, k, s):
+    """leaf whose behaviour is attached to the instance with types.MethodType (as py4hw/emulation/verilatorwrapping.py and the
+    tutorial do).  With inputs the behaviour is attached before the ports are declared (so that the ports register on their
+    wires); a source block (no input) declares its port first and gets its behaviour afterwards."""
+    import types
+    o = abstract_class(k.get('cls', 'AbsBlk'))(par, n)
+    kk = k.get('k', 0x55)
+    if a.get('a') is not None:
+        def propagate(self):
+            self.r.put(self.a.get() ^ kk)
+        o.propagate = types.MethodType(propagate, o)
+        o.a = o.addIn('a', a['a'])
+        o.r = o.addOut('r', a['r'])
+    else:
+        o.r = o.addOut('r', a['r'])
+
+        def propagate(self):
+            self.r.put(kk)
+        o.propagate = types.MethodType(propagate, o)
+    return o
+
+
+def _abs_group(p, par, n, a, k, s):
+    """the same run-time class used as a structural group (no behaviour of its own) around one inverter"""
+    o = abstract_class(k.get('cls', 'AbsBlk'))(par, n)
+    o.addIn('a', a['a'])
+    o.addOut('r', a['r'])
+    p.Not(o, 'inv', a['a'], a['r'])
+    return o
+
+
+def _abs_clocked(p, par, n, a, k, s):
+    """clock() bound to the instance: r <= a + k at every edge (prepare)"""
+    import types
+    o = abstract_class(k.get('cls', 'AbsBlk'))(par, n)
+    kk = k.get('k', 1)
+
+    def clock(self):
+        self.r.prepare(self.a.get() + kk)
+    o.clock = types.MethodType(clock, o)
+    o.a = o.addIn('a', a['a'])
+    o.r = o.addOut('r', a['r'])
+    return o
+
+
 # --------------------------------------------------------------------------- cfg normalisation (JSON round trip)
 
 def norm_cfg(x):
@@ -313,6 +368,9 @@ NATIVE = {
                        lambda p, par, n, a, k, s: p.AddCarryIn(par, n, a['a'], a['b'], a['r'], a['ci'])),
     'SubBorrowInWide': (('a', 'b', 'ci'), ('r',), False, True,
                         lambda p, par, n, a, k, s: p.SubBorrowIn(par, n, a['a'], a['b'], a['r'], a['ci'])),
+    'AbsLeaf': (('a',), ('r',), False, True, _abs_leaf),
+    'AbsGroup': (('a',), ('r',), False, True, _abs_group),
+    'AbsClocked': (('a',), ('r',), True, False, _abs_clocked),
     'DoublePut': (('a',), ('r',), False, True,
                   lambda p, par, n, a, k, s: classes()['DoublePut'](par, n, a['a'], a['r'], mode=k.get('mode', 0))),
     'Waveform': (('w0', 'w1', 'w2', 'w3'), (), True, False,
@@ -755,7 +813,7 @@ WIDE_CONTROL_PINS = ('ci',)      # catalogue pins declared 1 bit wide whose cons
 
 
 def gen_dag(rnd, n_blocks, prim_only=False, n_regs=0, n_boxes=0, allow_random=False, max_leaves=24,
-            reg_narrow=False, tier='quick', scope_p=0.45, wide_ctl=0.0):
+            reg_narrow=False, tier='quick', scope_p=0.45, wide_ctl=0.0, p_abs=0.0):
     """random acyclic combinational netlist from the catalogue, optionally with Regs in feedback and wrappers"""
     g = _Gen(rnd)
     pool = comb_pool(prim_only, allow_random)
@@ -781,6 +839,21 @@ def gen_dag(rnd, n_blocks, prim_only=False, n_regs=0, n_boxes=0, allow_random=Fa
     guard = 0
     while made < n_blocks and guard < 50 * n_blocks:
         guard += 1
+        if p_abs and rnd.random() < p_abs:
+            # run-time class instances: the same class as behaviour-less group, as combinational leaf and as source
+            cls_name = rnd.choice(['AbsBlk0', 'AbsBlk1'])
+            kind = rnd.choice(['AbsGroup', 'AbsLeaf', 'AbsLeaf', 'AbsSrc'])
+            aw = rnd.choice(sorted(g.bywidth)) if g.bywidth else 4
+            o = g.wire(aw, pool=False)
+            if kind == 'AbsSrc':
+                blk = native_block(g.bid('x'), 'AbsLeaf', dict(a=None, r=o), dict(cls=cls_name, k=rnd.randrange(1 << aw)), scope())
+            else:
+                blk = native_block(g.bid('x'), kind, dict(a=g.pick(aw), r=o), dict(cls=cls_name, k=rnd.randrange(1 << aw)), scope())
+            blk['prim'] = (kind != 'AbsGroup')
+            g.plan['blocks'].append(blk)
+            g.bywidth.setdefault(aw, []).append(o)
+            made += 1
+            continue
         best = None
         for _ in range(4):
             e = rnd.choice(pool)
